@@ -272,6 +272,11 @@ def main(argv):
     keys = sorted(counters)
     if keys:
         print('  observed: ' + ', '.join('%s=%d' % (k, counters[k]) for k in keys)[:1800])
+    cut = sum(v for k, v in counters.items() if k.endswith('cut_by_time'))
+    if cut:
+        # the wall-clock watchdog is no verdict: it only says that part of the planned workload did not run
+        print('  NOTE: %d workload loop(s) were cut short by the wall-clock watchdog in this run (coverage reduced; '
+              'the counts above are what actually ran)' % cut)
     if inconclusive:
         for why in inconclusive:
             print('INCONCLUSIVE property=%s reason=%s' % (prop, why[:1500]))
